@@ -120,6 +120,16 @@ func (c *FnCtx) specEnvAt(st *State, pos token.Pos) *SpecEnv {
 					return ev
 				}
 			}
+			// the key sequence a range-over-map loop runs over: mkeys<N>
+			if strings.HasPrefix(name, "mkeys") {
+				if n, err := strconv.Atoi(name[5:]); err == nil {
+					for node, v := range c.mapSeqOf {
+						if c.loopOrd[node] == n {
+							return v
+						}
+					}
+				}
+			}
 			// length of the sequence a range / iterator loop runs over (fixed when the loop starts): rlen<N>
 			if strings.HasPrefix(name, "rlen") {
 				if n, err := strconv.Atoi(name[4:]); err == nil {
@@ -636,6 +646,17 @@ func (c *FnCtx) specCall(env *SpecEnv, x *ast.CallExpr) *Val {
 	case "store":
 		a, k, v := arg(0), arg(1), arg(2)
 		return &Val{T: tApp("store", a.T, k.T, v.T), S: a.S}
+	case "indom":
+		// indom(m, k): the Go map m has an entry for k
+		m, k := arg(0), arg(1)
+		if m.Typ != nil {
+			if mt, ok := m.Typ.Underlying().(*types.Map); ok {
+				_, present := c.mapLoad(env.st, m, mt, k)
+				return &Val{T: present, S: SBool}
+			}
+		}
+		c.specErr("indom: first argument is not a Go map")
+		return &Val{T: c.fresh("specbad", SBool), S: SBool}
 	case "jsonDoc":
 		// decision procedure over the structure of the reply term (jsondoc.go)
 		c.assumeNote("jsonDoc(x) is decided by vcgo's own JSON recogniser over the structure of x (literals and classed opaque pieces); trusted")
